@@ -239,6 +239,8 @@ class Seams:
             setigen.frame.time = self.clock
         if hasattr(be, "tqdm"):
             be.tqdm = TqdmShim
+        if self.spec.get("chdir"):
+            os.chdir(self.scratch)          # the library must not depend on the current working directory
         np.random.default_rng = self._default_rng
         # numpy's legacy global state must not matter: perturb it per seam set
         np.random.seed((self.entropy_salt * 2654435761 + 12345) % (2 ** 32))
